@@ -79,6 +79,6 @@ def check(ctx: Ctx) -> None:
     for base in ("IS_REQUIRED", "IS_OPTIONAL", "IS_FORBIDDEN"):
         for suffix in ("_AND_FILLED", "_AND_EMPTY"):
             ctx.ob("C13.suffix", base + suffix, base + suffix in members, f"{base + suffix} is not a member of RequirementValidationValue", file="src/ahbicht/models/validation_values.py")
-    valsweep.report(ctx, ("C13.tree", "C12.order"))
+    ctx.soft(lambda: valsweep.report(ctx, ("C13.tree", "C12.order")))
     ctx.assume("the expression evaluation below validation is summarised by the reference semantics (decided for the real pipeline by C02, C04-C10)")
     ctx.assume("L5: asyncio.gather returns results in argument order; every gathered coroutine runs in a copy of the context")
